@@ -333,9 +333,7 @@ def laws_parallel(module: str, cfg: str, obs: List[dict], nchunks: int, name: st
   def one(k):
     ch = chunks[k]
     out = tlc.workdir(f'lawsout/{name}-{k}') / 'fail.json'
-    # deep (non tail) recursion over whole iteration sequences needs a larger Java thread stack
-    r = tlc.check_with_json(module, cfg, [obs[i] for i in ch], name=f'{name}-{k}',
-                            env={'OUT_FILE': str(out), 'JAVA_TOOL_OPTIONS': '-Xss512m'},
+    r = tlc.check_with_json(module, cfg, [obs[i] for i in ch], name=f'{name}-{k}', env={'OUT_FILE': str(out)},
                             timeout=timeout, workers=1)
     if not r.ok or not out.exists():
       raise tlc.TLCError(f'{module}/{cfg}: law evaluation did not complete:\n' + r.out[-3000:])
